@@ -23,6 +23,7 @@ def cases(tier, seed):
             cs.append({'scen': 'save_load_cores', 's': dict(s)})
             if dt in ('float64', 'complex128'):
                 cs.append({'scen': 'save_load_cores', 's': dict(s, overwrite=True)})
+                cs.append({'scen': 'save_load_cores', 's': dict(s, prefix='eye')})
             if dt == 'float64':
                 cs.append({'scen': 'save_load_cores', 's': dict(s, sliced=True)})
                 if M:
